@@ -818,7 +818,7 @@ pub fn replay(part: &str, case: serde_json::Value) -> Option<CaseResult> {
 pub fn meta() -> EvidenceMeta {
     EvidenceMeta {
         level: "exploration",
-        rule: "part swap: a family of configurations whose generation g attaches m_g (1-5, neighbours differ) tagged capture appenders to the root in generated declaration orders; 1-6 logging threads x 200-1500 records with unique ids against 1-2 reconfiguring threads stepping through the family as fast as they can, plus 0-2 threads that call set_config and then log themselves; oracle: no panic; every record id is delivered under exactly one generation and to exactly that generation's m_g appenders; a record logged after the thread's own set_config returned never uses an older generation. part reentrant (exhaustive): an appender at every fan-out position 0..m-1 calls Handle::set_config from inside append: the record in flight completes entirely under the old configuration, the next one uses the new one. part reloader (guarded single-step API, real ConfigReloader::run_once): histories of 1-12 file edits between polls (valid variants that differ in routing, touch, nop, four kinds of garbage, deletion, recreation, same-mtime-different-bytes, refresh-rate change/removal; mtimes set explicitly) against a model of the statement; the active configuration is observed behaviourally (probe records through a custom 'probe' appender kind registered in Deserializers, which also counts rebuilds); plus one real-time smoke case of init_file with refresh_rate 20ms in a child process (timeout = inconclusive). non-trivial = >= 3 generations observed (swap); every reentrant case; a valid change after a bad file, a rate change or a touch (reloader)".into(),
+        rule: "part swap: a family of configurations whose generation g attaches m_g (1-5, neighbours differ) tagged capture appenders to the root in generated declaration orders; 1-6 logging threads x 200-1500 records with unique ids against 1-2 reconfiguring threads stepping through the family as fast as they can, plus 0-2 threads that call set_config and then log themselves; oracle: no panic; every record id is delivered under exactly one generation and to exactly that generation's m_g appenders; a record logged after the thread's own set_config returned never uses an older generation. part reentrant (exhaustive): an appender at every fan-out position 0..m-1 calls Handle::set_config from inside append: the record in flight completes entirely under the old configuration, the next one uses the new one. part reloader (guarded single-step API, real ConfigReloader::run_once): histories of 1-12 file edits between polls (valid variants that differ in routing, touch, nop, four kinds of garbage, deletion, recreation, same-mtime-different-bytes, refresh-rate change/removal; mtimes set explicitly) against a model of the statement; the active configuration is observed behaviourally (probe records through a custom 'probe' appender kind registered in Deserializers, which also counts rebuilds); plus one real-time smoke case of init_file with refresh_rate 20ms in a child process (timeout = inconclusive). Reloader edits include a valid document plus a byte that is not UTF-8 (unreadable: reported, last good kept). Two smoke cases through the real init_file (in-place edits; a symbolic link re-pointed atomically): a valid change not applied within 30 s at refresh_rate 20 ms is a violation. non-trivial = >= 3 generations observed (swap); every reentrant case; a valid change after a bad file, a rate change or a touch (reloader)".into(),
         assumptions: vec![
             "OS scheduler not controlled: swaps between two specific instructions of Log::log are hit statistically (volume) - the re-entrant plans place the swap deterministically at every fan-out position".into(),
             "liveness of the reloader thread: single-step API plus one bounded real-time smoke case".into(),
